@@ -152,6 +152,8 @@ class TlcResult:
 
 
 _tlc_counter = [0]
+import threading  # noqa: E402
+_tlc_lock = threading.Lock()
 
 
 def run_tlc(module, cfg, *, workdir, files=None, workers=1, timeout=900, deadlock=False,
@@ -159,8 +161,9 @@ def run_tlc(module, cfg, *, workdir, files=None, workers=1, timeout=900, deadloc
             dump_dot=None):
     """Run TLC on spec/<module>.tla with configuration file `cfg` (path) in a scratch directory.
     files: {name: path} extra files copied/symlinked next to the spec (e.g. trace.ndjson)."""
-    _tlc_counter[0] += 1
-    d = Path(workdir) / f"tlc_{_tlc_counter[0]}_{module}"
+    with _tlc_lock:
+        _tlc_counter[0] += 1
+        d = Path(workdir) / f"tlc_{_tlc_counter[0]}_{module}"
     if d.exists():
         shutil.rmtree(d)
     d.mkdir(parents=True)
@@ -204,6 +207,7 @@ def run_tlc(module, cfg, *, workdir, files=None, workers=1, timeout=900, deadloc
     r.wall_s = time.time() - t0
     (d / "tlc.out").write_text(r.out)
     _parse_tlc(r)
+    log(f"[tlc] {module} {os.path.basename(str(cfg))}: {r.status} gen={r.generated} distinct={r.distinct} {r.wall_s:.1f}s")
     shutil.rmtree(d / "states", ignore_errors=True)
     return r
 
@@ -221,11 +225,17 @@ def _parse_tlc(r):
     m = re.search(r"The depth of the complete state graph search is (\d+)", out)
     if m:
         r.depth = int(m.group(1))
-    for m in _bad_re.finditer(out):
-        r.bad.append((int(m.group(1)), m.group(2), (m.group(3) or "").strip()))
+    for line in out.splitlines():
+        line = line.strip()
+        if line.startswith('"BAD{'):
+            try:
+                o = json.loads(json.loads(line)[3:])
+                r.bad.append((int(o["l"]), o["clause"], json.dumps(o.get("detail"))))
+            except Exception:
+                r.bad.append((0, "unparsed-BAD-line", line[:300]))
     for m in re.finditer(r"Invariant (\S+) is violated", out):
         r.violated.append(m.group(1))
-    for m in re.finditer(r"Temporal properties were violated|Action property (\S+) is violated|property (\S+) (?:is|was) violated", out):
+    for m in re.finditer(r"Temporal properties were violated|Action property (\S+) is violated|[Tt]emporal property (\S+) (?:is|was) violated", out):
         r.violated.append(next((g for g in m.groups() if g), "temporal"))
     # coverage lines:  <Action line 12, col 1 to line 20, col 30 of module M>: 12:34
     for m in re.finditer(r"^<(\w+) line \d+, col \d+ to line \d+, col \d+ of module (\w+)>: (\d+):(\d+)", out, re.M):
@@ -240,7 +250,7 @@ def _parse_tlc(r):
         r.status = "ok"
     elif re.search(r"Invariant \S+ is violated", out):
         r.status = "invariant"
-    elif "Temporal properties were violated" in out or "Action property" in out and "is violated" in out:
+    elif re.search(r"Temporal propert(y|ies) .*violated", out) or ("Action property" in out and "is violated" in out):
         r.status = "temporal"
     elif "Deadlock reached" in out:
         r.status = "deadlock"
@@ -369,6 +379,13 @@ class Check:
         job["coverage"] = {k: v[1] for k, v in r.coverage.items()}
         return r
 
+    def models(self, jobs, parallel=4):
+        """Run several model jobs concurrently. jobs: list of (module, cfg_name, kwargs). Returns results in order."""
+        from concurrent.futures import ThreadPoolExecutor
+        with ThreadPoolExecutor(max_workers=parallel) as ex:
+            futs = [ex.submit(self.model, m, cfgn, **kw) for (m, cfgn, kw) in jobs]
+            return [f.result() for f in futs]
+
     # -- trace jobs (monitor acceptance)
     def validate_trace(self, module, trace_path, *, cfg_name=None, timeout=1800, heap="8g", extra_files=None,
                        blocking=False, dfs=False):
@@ -384,9 +401,13 @@ class Check:
         if r.status in ("timeout", "error", "deadlock", "invariant", "temporal"):
             raise MachineryError(f"TLC trace {module} on {trace_path}: {r.status} {r.violated}\n{r.out[-4000:]}")
         consumed = None
-        m = re.search(r'<<"CONSUMED",\s*(\d+)>>', r.out)
+        m = re.search(r'"CONSUMED(\{.*\})"', r.out)
+        nbad = None
         if m:
-            consumed = int(m.group(1))
+            o = json.loads(json.loads('"' + m.group(1) + '"'))
+            consumed, nbad = int(o["n"]), int(o.get("bad", -1))
+        if nbad is not None and nbad >= 0 and nbad != len(r.bad):
+            raise MachineryError(f"trace spec {module}: {nbad} failing clauses counted by TLC but {len(r.bad)} BAD lines parsed")
         job["consumed"] = consumed
         if not blocking:
             # monitor acceptance: every line must have been consumed, else the trace spec itself is broken
